@@ -11,13 +11,51 @@ CREATORS = ("std::fs::File::create", "std::fs::OpenOptions::open", "std::fs::wri
             "std::fs::File::options")
 
 
+def _creation_sites(F, fn):
+    """blocks of fn that create the artifact: a creator call, or a call of a local helper that contains one"""
+    out = []
+    for b, t in fn.calls():
+        c = callee(t)
+        if c in CREATORS:
+            out.append((b, fn, b))
+        elif c.startswith("ucglib::build::opcode::runtime::") and c in F.fns and c != fn.name:
+            h = F.fn(c)
+            for hb, ht in h.calls():
+                if callee(ht) in CREATORS:
+                    out.append((b, h, hb))
+    return out
+
+
+def r49t(F):
+    r = RuleResult("R49t", "the artifact is opened truncating",
+                   "the file Builtins::out writes is created with File::create, or through OpenOptions with truncate(true) (or "
+                   "create_new): otherwise a shorter output overwrites an older, longer artifact in place and keeps its stale tail",
+                   floor=1)
+    fn = F.fn(OUT)
+    sites = _creation_sites(F, fn)
+    need(sites, "no file creation reachable from Builtins::out")
+    for b, hf, hb in sites:
+        c = callee(hf.term(hb))
+        if c in ("std::fs::File::create", "std::fs::File::create_new", "std::fs::write"):
+            ok, why = True, "%s truncates" % c.split("::")[-1]
+        else:
+            tr = [(x, t) for x, t in hf.calls() if callee(t) in ("std::fs::OpenOptions::truncate", "std::fs::OpenOptions::create_new")
+                  and len(t["args"]) == 2 and t["args"][1].get("int") == "1" and cfg.dominates(hf, x, hb)]
+            ap = [(x, t) for x, t in hf.calls() if callee(t) == "std::fs::OpenOptions::append" and t["args"][1].get("int") == "1"]
+            ok = bool(tr) and not ap
+            why = "OpenOptions with truncate(true)" if ok else \
+                "the artifact is opened with OpenOptions without truncate(true): rebuilding after the output shrank leaves the old tail in the file"
+        r.inst("Builtins::out:open", hf.where(hb), ok, why)
+    return r
+
+
 def r49(F):
     r = RuleResult("R49", "convert before create",
                    "in Builtins::out every path to the creation of the artifact has passed a successful return of "
                    "Converter::convert, so a failed conversion neither creates nor truncates a file", floor=2)
     fn = F.fn(OUT)
     conv = [b for b, t in fn.calls() if callee(t) == DYN_CONVERT]
-    create = [b for b, t in fn.calls() if callee(t) in CREATORS]
+    create = sorted({b for b, hf, hb in _creation_sites(F, fn)})
     need(conv, "no Converter::convert call in Builtins::out")
     need(create, "no file creation call in Builtins::out")
     for cb in create:
@@ -50,7 +88,7 @@ def r50(F):
     gets = [(b, t) for b, t in fn.calls() if callee(t).endswith("Environment::get_out_lock_for_path")]
     sets = [b for b, t in fn.calls() if callee(t).endswith("Environment::set_out_lock_for_path")]
     conv = [b for b, t in fn.calls() if callee(t) == DYN_CONVERT]
-    create = [b for b, t in fn.calls() if callee(t) in CREATORS]
+    create = sorted({b for b, hf, hb in _creation_sites(F, fn)})
     need(gets and sets, "lock calls not found in Builtins::out")
     err_blocks = set()
     for b, j, pl, rv, meta in fn.assigns():
@@ -213,4 +251,4 @@ def r87b(F):
     return r
 
 
-RULES = [r49, r50, r51, r52, r87b]
+RULES = [r49, r49t, r50, r51, r52, r87b]
